@@ -3,7 +3,9 @@ import ZV.Model.C27
 `c27 name <ver> <ServerName form> <certificate kind> <skip 0/1> <i>` → `c=… s=…`
 `c27 res <ver> <server cert> <first client cfg> <second client cfg> <cache k|1> <i>` → `c1=… s1=… c2=… s2=… r2=<1|0|->`
 `c27 sres <ver> <client cert> <first server cfg> <second server cfg> <i>` → same
-(descriptors: see go/props/c27/names.go and resume.go).  The tables below are the scenario → abstract fact mapping (trusted). -/
+`c27 hk <ver> <suite> <key> <kex> <server scenario> <skip> <mode> <client scenario> <hooks> <ClientCAs R|N|E> <i>` → `c=… s=… cb=<client callbacks run>`
+`c27 res … <cache> <hooks> <i>` / `c27 sres … <second server cfg> <hooks> <i>`: the same two-connection scenarios with PERMISSIVE hooks installed → same output
+(descriptors: see go/props/c27/names.go, resume.go and hooks.go).  The tables below are the scenario → abstract fact mapping (trusted). -/
 namespace ZV.C27
 
 def parseKex (s : String) : Option Kex :=
@@ -66,6 +68,105 @@ def chainFacts (srv cfg : List Char) : Option ChainFacts :=
 
 def rStr (completed resumed : Bool) : String := if !completed then "-" else if resumed then "1" else "0"
 
+/-- two client connections through one session cache (see resume.go) -/
+def handleRes (ver srv a b cache : String) : String :=
+  match chainFacts srv.toList a.toList, chainFacts srv.toList b.toList, a.toList, b.toList with
+  | some f1, some f2, [skip1, _, name1, _], [skip2, _, name2, _] =>
+    let kex := verKex ver
+    let ca1 := clientAccepts (skip1 == '1') kex ⟨f1.chainOK, true, true⟩
+    let o1 := outcome (ver == "13") ca1 true
+    let cached : Option Session := if ca1 && (cache == "1" || name1 == name2) then some (sessionOf f1) else none
+    let ca2 := clientAcceptsWithCache (skip2 == '1') kex cached f2 ⟨f2.chainOK, true, true⟩
+    let o2 := outcome (ver == "13") ca2 true
+    let resumed := match cached with
+      | some s => sessionUsable (skip2 == '1') s f2.fresh f2.named
+      | none => false
+    s!"c1={okStr o1.1} s1={okStr o1.2} c2={okStr o2.1} s2={okStr o2.2} r2={rStr (o2.1 && o2.2) resumed}"
+  | _, _, _, _ => "bad-op"
+
+/-- two connections to servers sharing a ticket key (see resume.go) -/
+def handleSRes (ver cli a b : String) : String :=
+  match a.toList, b.toList with
+  | [m1, cas1, clock1], [m2, cas2, clock2] =>
+    match parseMode (String.singleton m1), parseMode (String.singleton m2) with
+    | some m1, some m2 =>
+      let hasCert := cli != "none"
+      let chainOK (cas clock : Char) : Bool :=
+        match cli.toList with
+        | [iss, life] => hasCert && (cas == 'C' || cas == iss) && (clock == 'N' || life == 'L')
+        | _ => false
+      let tls13 := ver == "13"
+      let sa1 := serverAccepts m1 ⟨hasCert, chainOK cas1 clock1, true⟩
+      let o1 := outcome tls13 true sa1
+      let sess : Option Bool := if sa1 then some (hasCert && decide (m1.toNat ≥ 1)) else none
+      let tryResume := match sess with
+        | some h => serverResumes m2 h
+        | none => false
+      let sa2 := serverAcceptsWithTicket m2 sess (chainOK cas2 clock2) ⟨hasCert, chainOK cas2 clock2, true⟩
+      let o2 := if tryResume then (sa2, sa2) else outcome tls13 true sa2
+      s!"c1={okStr o1.1} s1={okStr o1.2} c2={okStr o2.1} s2={okStr o2.2} r2={rStr (o2.1 && o2.2) tryResume}"
+    | _, _ => "bad-op"
+  | _, _ => "bad-op"
+
+/-- The hooks descriptor of hooks.go: `-` or a set of letters.
+    client: `p`/`q` VerifyPeerCertificate returning nil / an error, `c`/`d` VerifyConnection returning nil / an error,
+            `s` the client certificate sits in `Config.Certificates` (default selection) instead of `GetClientCertificate`;
+    server: `P`/`Q`, `C`/`D` likewise, `G` GetCertificate returning the configured certificate, `F` GetConfigForClient
+            returning the real configuration (the listener's own is a lax shell), `f` GetConfigForClient returning nil.
+    The structural hooks are parsed and have no influence on any decision. -/
+structure HookSet where
+  cvpc : Hook
+  cvc : Hook
+  svpc : Hook
+  svc : Hook
+  staticCert : Bool
+  getCert : Bool
+  cfgForClient : Bool
+
+def HookSet.none : HookSet := ⟨.absent, .absent, .absent, .absent, false, false, false⟩
+
+def addHook (h : HookSet) (ch : Char) : Option HookSet :=
+  if ch == 'p' then (if h.cvpc == .absent then some { h with cvpc := .permit } else none)
+  else if ch == 'q' then (if h.cvpc == .absent then some { h with cvpc := .reject } else none)
+  else if ch == 'c' then (if h.cvc == .absent then some { h with cvc := .permit } else none)
+  else if ch == 'd' then (if h.cvc == .absent then some { h with cvc := .reject } else none)
+  else if ch == 'P' then (if h.svpc == .absent then some { h with svpc := .permit } else none)
+  else if ch == 'Q' then (if h.svpc == .absent then some { h with svpc := .reject } else none)
+  else if ch == 'C' then (if h.svc == .absent then some { h with svc := .permit } else none)
+  else if ch == 'D' then (if h.svc == .absent then some { h with svc := .reject } else none)
+  else if ch == 's' then (if !h.staticCert then some { h with staticCert := true } else none)
+  else if ch == 'G' then (if !h.getCert then some { h with getCert := true } else none)
+  else if ch == 'F' || ch == 'f' then (if !h.cfgForClient then some { h with cfgForClient := true } else none)
+  else none
+
+def parseHookChars : List Char → HookSet → Option HookSet
+  | [], h => some h
+  | ch :: rest, h =>
+    match addHook h ch with
+    | some h' => parseHookChars rest h'
+    | none => none
+
+def parseHooks (s : String) : Option HookSet :=
+  if s == "-" then some HookSet.none
+  else if s.isEmpty then none
+  else parseHookChars s.toList HookSet.none
+
+/-- every installed callback returns nil and the client certificate is supplied as in the plain scenarios -/
+def HookSet.permissive (h : HookSet) : Bool :=
+  h.cvpc.allows && h.cvc.allows && h.svpc.allows && h.svc.allows && !h.staticCert
+
+/-- `ClientCAs`: `R` the pool holding the issuer of the trusted client certificates, `N` nil (the host's roots), `E` an
+    empty pool: with `N` / `E` no client certificate of the scenarios chains to a trusted root -/
+def parseCas (s : String) : Option Bool :=
+  if s == "R" then some true else if s == "N" || s == "E" then some false else none
+
+def runFlag (name : String) (h : Hook) (ran : Bool) : String :=
+  if h.installed then name ++ (if ran then "1" else "0") else ""
+
+def cbStr (h : HookSet) (skip : Bool) (c : ServerCred) : String :=
+  let s := runFlag "p" h.cvpc (clientVpcRuns h.cvpc skip c) ++ runFlag "c" h.cvc (clientVcRuns h.cvpc h.cvc skip c)
+  if s.isEmpty then "-" else s
+
 def handle (args : List String) : String :=
   match args with
   | ["name", ver, form, kind, skip, _i] =>
@@ -78,42 +179,29 @@ def handle (args : List String) : String :=
         s!"c={okStr o.1} s={okStr o.2}"
       | none => "bad-op"
     | none => "bad-op"
-  | ["res", ver, srv, a, b, cache, _i] =>
-    match chainFacts srv.toList a.toList, chainFacts srv.toList b.toList, a.toList, b.toList with
-    | some f1, some f2, [skip1, _, name1, _], [skip2, _, name2, _] =>
-      let kex := verKex ver
-      let ca1 := clientAccepts (skip1 == '1') kex ⟨f1.chainOK, true, true⟩
-      let o1 := outcome (ver == "13") ca1 true
-      let cached : Option Session := if ca1 && (cache == "1" || name1 == name2) then some (sessionOf f1) else none
-      let ca2 := clientAcceptsWithCache (skip2 == '1') kex cached f2 ⟨f2.chainOK, true, true⟩
-      let o2 := outcome (ver == "13") ca2 true
-      let resumed := match cached with
-        | some s => sessionUsable (skip2 == '1') s f2.fresh f2.named
-        | none => false
-      s!"c1={okStr o1.1} s1={okStr o1.2} c2={okStr o2.1} s2={okStr o2.2} r2={rStr (o2.1 && o2.2) resumed}"
-    | _, _, _, _ => "bad-op"
-  | ["sres", ver, cli, a, b, _i] =>
-    match a.toList, b.toList with
-    | [m1, cas1, clock1], [m2, cas2, clock2] =>
-      match parseMode (String.singleton m1), parseMode (String.singleton m2) with
-      | some m1, some m2 =>
-        let hasCert := cli != "none"
-        let chainOK (cas clock : Char) : Bool :=
-          match cli.toList with
-          | [iss, life] => hasCert && (cas == 'C' || cas == iss) && (clock == 'N' || life == 'L')
-          | _ => false
-        let tls13 := ver == "13"
-        let sa1 := serverAccepts m1 ⟨hasCert, chainOK cas1 clock1, true⟩
-        let o1 := outcome tls13 true sa1
-        let sess : Option Bool := if sa1 then some (hasCert && decide (m1.toNat ≥ 1)) else none
-        let tryResume := match sess with
-          | some h => serverResumes m2 h
-          | none => false
-        let sa2 := serverAcceptsWithTicket m2 sess (chainOK cas2 clock2) ⟨hasCert, chainOK cas2 clock2, true⟩
-        let o2 := if tryResume then (sa2, sa2) else outcome tls13 true sa2
-        s!"c1={okStr o1.1} s1={okStr o1.2} c2={okStr o2.1} s2={okStr o2.2} r2={rStr (o2.1 && o2.2) tryResume}"
-      | _, _ => "bad-op"
-    | _, _ => "bad-op"
+  | ["res", ver, srv, a, b, cache, _i] => handleRes ver srv a b cache
+  | ["res", ver, srv, a, b, cache, hooks, _i] =>
+    match parseHooks hooks with
+    | some h => if h.permissive then handleRes ver srv a b cache else "bad-op"
+    | none => "bad-op"
+  | ["sres", ver, cli, a, b, _i] => handleSRes ver cli a b
+  | ["sres", ver, cli, a, b, hooks, _i] =>
+    match parseHooks hooks with
+    | some h => if h.permissive then handleSRes ver cli a b else "bad-op"
+    | none => "bad-op"
+  | ["hk", _ver, _suite, _key, kex, ss, skip, mode, cs, hooks, cas, _i] =>
+    match parseKex kex, serverScen ss, parseMode mode, clientScen cs, parseHooks hooks, parseCas cas with
+    | some k, some sc, some m, some co, some h, some casOK =>
+      -- default selection from `Config.Certificates` withholds a certificate whose issuer the CertificateRequest's CA
+      -- list (the subjects of a non-empty ClientCAs) does not name
+      let withheld := h.staticCert && cs == "untrusted" && casOK
+      let co' : ClientOffer := if withheld then ⟨false, false, false⟩ else ⟨co.hasCert, co.chainOK && casOK, co.cvValid⟩
+      let sk := skip == "1"
+      let ca := clientAcceptsH h.cvpc h.cvc sk k sc
+      let sa := serverAcceptsH h.svpc h.svc m co'
+      let o := outcome (k == .tls13) ca sa
+      s!"c={okStr o.1} s={okStr o.2} cb={cbStr h sk sc}"
+    | _, _, _, _, _, _ => "bad-op"
   | ["hs", _ver, _suite, _key, kex, ss, skip, mode, cs, _i] =>
     match parseKex kex, serverScen ss, parseMode mode, clientScen cs with
     | some k, some sc, some m, some co =>
